@@ -247,6 +247,81 @@ def pushed_before(prog, fn, len_call, site):
     return None
 
 
+def pool_count(prog, fn, a, b):
+    """arena.len() - free_list.len()  (anywhere: the free list holds distinct slots of the arena, C11), and
+    (arena.len() [- free_list.len()]) - 1  (the sentinel slot is taken at construction and never released, so at least one
+    slot exists and is in use) - also when the count comes out of a helper of the pool"""
+    from rules.alloc import sizeform
+    from rules.pool import pool_roles
+    roles = pool_roles(prog)
+    pairs = {(r['nodes'][-1], r['free'][-1]) for r in roles.values() if r.get('nodes') and r.get('free')}
+    if not pairs:
+        return None
+
+    def form(x):
+        f = sizeform(prog, fn, x)
+        if f.kind != 'AFFINE' or f.const != 0:
+            return None
+        pos = [(t, c) for t, c in f.terms.items() if c > 0]
+        neg = [(t, c) for t, c in f.terms.items() if c < 0]
+        if len(pos) != 1 or pos[0][1] != 1 or pos[0][0][0] != 'len' or len(neg) > 1:
+            return None
+        nodes = pos[0][0][1]
+        if neg:
+            if neg[0][1] != -1 or neg[0][0][0] != 'len' or neg[0][0][1][:-1] != nodes[:-1]:
+                return None
+            if (nodes[-1], neg[0][0][1][-1]) in pairs:
+                return 'in-use'
+            return None
+        if any(nodes[-1] == p[0] for p in pairs):
+            return 'slots'
+        return None
+    fa = form(a)
+    sb = strip(b)
+    if fa == 'slots':
+        fb = sizeform(prog, fn, b)
+        if fb.kind == 'AFFINE' and fb.const == 0 and len(fb.terms) == 1:
+            (t, c), = fb.terms.items()
+            fa_t = list(sizeform(prog, fn, a).terms)[0]
+            if c == 1 and t[0] == 'len' and t[1][:-1] == fa_t[1][:-1] and (fa_t[1][-1], t[1][-1]) in pairs:
+                return 'the free list holds distinct slots of the arena, so its length never exceeds the arena\'s (C11)'
+    if fa in ('slots', 'in-use') and sb.is_const(1):
+        return 'the sentinel slot is taken at construction and never released: at least one slot exists and is in use (POOL, NILSTATE)'
+    return None
+
+
+def counter_field(prog, fn, x, step):
+    """x + small constant where x is a 64-bit field of self that the whole crate only ever sets to a constant or steps by a small
+    constant (an entry counter): 2^64 steps are out of reach"""
+    x, step = strip(x), strip(step)
+    if not (step.kind == 'const' and isinstance(step.args[0], int) and 0 <= step.args[0] <= 16):
+        return None
+    if x.kind != 'load':
+        return None
+    fld = prog.self_field(x)
+    if not fld or len(fld) != 1:
+        return None
+    for g in prog.fns.values():
+        if g.self_adt != fn.self_adt or not g.info.get('mir'):
+            continue
+        for st in g.body.stores:
+            if strip(st.root).kind != 'param' or tuple(p for p in st.path if p != '*' and isinstance(p, str))[:1] != fld:
+                continue
+            val = strip(st.value)
+            if val.kind == 'load' and val.fields() == ('0',):
+                val = strip(val.args[0])
+            if val.kind == 'const':
+                continue
+            if val.kind == 'bin' and val.args[0].replace('WithOverflow', '').replace('Unchecked', '') in ('Add', 'Sub'):
+                p_, q_ = strip(val.args[1]), strip(val.args[2])
+                if q_.kind == 'const' and isinstance(q_.args[0], int) and abs(q_.args[0]) <= 16 and p_.kind == 'load' and prog.self_field(p_) == fld:
+                    continue
+            if val.kind == 'call' and val.callee_name() in ('saturating_sub', 'saturating_add', 'wrapping_sub', 'min') and val.args and strip(val.args[0]).kind == 'load' and prog.self_field(strip(val.args[0])) == fld:
+                continue
+            return None
+    return 'entry counter in a 64-bit field (set to constants and stepped by small constants only): cannot overflow'
+
+
 def auto_discharge(prog, fn, v, op, a, b):
     """reason string if the arithmetic site is discharged automatically"""
     body = fn.body
@@ -348,6 +423,25 @@ def auto_discharge(prog, fn, v, op, a, b):
                   and same_val(strip_ref(m.args[0]), strip_ref(sa.args[0])) and body.cfg.dominates(sb.point[0], m.point[0])]
         if not shrink:
             return 'length of a vector minus its own earlier length, with nothing that shrinks it in between'
+    if op == 'Add' and (v.ty or '').lstrip('(').startswith(('usize', 'u64', 'i64', 'isize')):
+        why = counter_field(prog, fn, sa, sb) or counter_field(prog, fn, sb, sa)
+        if why:
+            return why
+    if op in ('Shl', 'Shr') and sb.kind == 'call' and sb.callee_name() in ('trailing_zeros', 'leading_zeros') and sb.args:
+        # x.trailing_zeros() < bit width of x whenever x != 0
+        arg = strip(sb.args[0])
+        wide = {'u64': 64, 'i64': 64, 'usize': 64, 'u32': 32, 'i32': 32}
+        wa, wv = wide.get(arg.ty or ''), wide.get((v.ty or '').lstrip('(').split(',')[0])
+        if wa and wv and wa <= wv:
+            for (g, x, y) in guards:
+                if y is not None and g == 'Ne' and strip(y).is_const(0) and same_val(x, arg):
+                    return 'shift by the number of trailing/leading zeros of a value that is not 0 on this path: below its bit width'
+                if y is not None and g == 'Ne' and strip(x).is_const(0) and same_val(y, arg):
+                    return 'shift by the number of trailing/leading zeros of a value that is not 0 on this path: below its bit width'
+    if op == 'Sub':
+        why = pool_count(prog, fn, sa, sb)
+        if why:
+            return why
     if op == 'Sub' and sa.kind == 'call' and sa.callee_name() == 'len' and sb.is_const(1) and sa.args:
         why = pushed_before(prog, fn, sa, v)
         if why:
@@ -451,8 +545,13 @@ def run(ctx):
                 vf = vec_field_of(prog, c.args[0])
                 sg = '%s(%s)' % (nm, '.'.join(vf) if vf else bs)
                 key = table_key(mk, name, sg)
+                from engine import Instance
+                from program import fn_key as _fk
+                unch = [i for i in ctx.instances if i.rule == 'UNCHECKED' and i.fn == _fk(fn) and i.line == line and '|list-read(' in i.key]
                 if key:
                     ctx.add(RULE, fn, 'call:' + sg, 'exception', 'accepted: ' + TABLE[key], PROPS, line)
+                elif unch and all(i.verdict == 'ok' for i in unch):
+                    ctx.add(RULE, fn, 'call:' + sg, 'ok', 'discharged: the position is in bounds in every search outcome that reaches it (decided by UNCHECKED: %s)' % unch[0].msg, PROPS, line)
                 else:
                     ctx.add(RULE, fn, 'call:' + sg, 'violation', 'checked indexing may panic: no reasoned entry covers it', PROPS, line)
             elif nm == 'ilog2':
